@@ -133,6 +133,17 @@ func runCancels(c *Ctx, sh *shared, dir string) {
 		}(i, runs[i])
 	}
 	wg.Wait()
+	if d := os.Getenv("C05_DEBUGDIR"); d != "" {
+		_ = os.WriteFile(filepath.Join(d, "logA"), []byte(a.Log()), 0o644)
+		_ = os.WriteFile(filepath.Join(d, "logB"), []byte(b.Log()), 0o644)
+		x, _ := os.ReadFile(logA)
+		_ = os.WriteFile(filepath.Join(d, "statusA"), x, 0o644)
+		x, _ = os.ReadFile(logB)
+		_ = os.WriteFile(filepath.Join(d, "statusB"), x, 0o644)
+		for i, r := range runs {
+			_ = os.WriteFile(filepath.Join(d, fmt.Sprintf("unit%d", i)), []byte(r.unitA+" "+r.unitB), 0o644)
+		}
+	}
 	allA, allB := readStatusLog(logA), readStatusLog(logB)
 	for i, r := range runs {
 		info := rep(map[string]interface{}{"cancel_after_ms": delays[i].Milliseconds(), "local_bytes": len(r.local), "remote_bytes": len(r.remote), "local_state": stateOf(r.final), "local_size": sizeOf(r.final)})
